@@ -74,6 +74,10 @@ def clip (lo hi x : Rat) : Rat := if x < lo then lo else if hi < x then hi else 
     the surplus: a shorter table - `none`) -/
 def sameLen (d v : List Rat) : Option (List Rat) := if v.length = d.length then some v else none
 
+/-- `keys[index]` for an index array: every index must be in range (IndexError otherwise: `none`) -/
+def gatherN (keys idx : List Nat) : Option (List Nat) :=
+  if idx.all (fun i => decide (i < keys.length)) then some (idx.map fun i => keys.getD i 0) else none
+
 /-- `np.isinf(x)`: in the rational reading every value is finite -/
 def isinf (_ : Rat) : Bool := false
 
